@@ -21,6 +21,7 @@ func propC18(c *Ctx) {
 	c.ruleLockDiscipline()
 	c.ruleMarshalPurity("C18-MARSHAL-PURITY")
 	c.ruleOnceErrPersists("C18-ONCE-STATE")
+	c.ruleOnceGuardedReads("C18-ONCE-GUARDED-READS")
 	c.ruleOptionAliasing()
 	c.ruleSequentialAs("C18-NO-GOROUTINES")
 	if c.Deep {
